@@ -2,6 +2,7 @@ mod engine;
 mod hist;
 mod joinworld;
 mod props_conc;
+mod props_derive;
 mod props_det;
 mod props_disp;
 mod props_hist;
@@ -32,6 +33,7 @@ fn registry() -> Vec<Property> {
         props_disp::c11(),
         props_seq::c12(),
         props_seq::c13(),
+        props_derive::c18(),
         props_seq::c19(),
         props_det::c20(),
     ]
